@@ -224,7 +224,7 @@ pub fn deep_recursion_probe(n: usize, stack_kib: usize) -> Result<(usize, Option
     let err = String::from_utf8_lossy(&o.stderr);
     let lines = out.lines().filter(|l| l.starts_with("ok ")).count();
     if let Some(p) = out.lines().find(|l| l.starts_with("panic ")) {
-        return Ok((lines, Some(format!("a call panicked: {p}"))));
+        return Ok((lines, Some(format!("a call panicked in the dev-profile build: {p}"))));
     }
     if !o.status.success() || !out.lines().any(|l| l == "done") {
         let why = err.lines().find(|l| l.contains("overflow") || l.contains("abort") || l.contains("panicked")).unwrap_or("no diagnostic").to_string();
@@ -338,6 +338,30 @@ pub fn child(args: &[String]) -> i32 {
                 });
             }
         }
+        "g" => {
+            // very large numbers: every sequence of <= k words over nine, tens, hundred, one and the scale words
+            // (values beyond u64 / u128 / f64 precision)
+            job.thrs = &T_C;
+            let big = vocab::big_number_words(l, &facade);
+            let n = big.len();
+            let k = tier.pick(4usize, 5);
+            let mut buf = String::new();
+            for first in 0..n {
+                if first % nshards != shard {
+                    continue;
+                }
+                for_each_seq(n, k, first, &mut |idx| {
+                    buf.clear();
+                    for (j, &i) in idx.iter().enumerate() {
+                        if j > 0 {
+                            buf.push(' ');
+                        }
+                        buf.push_str(&big[i]);
+                    }
+                    job.one(&buf, false);
+                });
+            }
+        }
         _ => {
             job.thrs = &T_C;
             for (i, s) in long_inputs(l, tier.pick(3000, 20_000)).iter().enumerate() {
@@ -417,12 +441,14 @@ pub fn run(tier: Tier) -> i32 {
     let exe = std::env::current_exe().unwrap().to_string_lossy().to_string();
     let mut jobs: Vec<Vec<String>> = vec![];
     for l in langs::ALL {
-        for part in ["a", "b", "c", "d"] {
+        for part in ["a", "b", "c", "d", "g"] {
             let nsh = match (part, tier) {
                 ("a", Tier::Quick) => 4,
                 ("a", Tier::Thorough) => 16,
                 ("b", Tier::Quick) => 2,
                 ("b", Tier::Thorough) => 16,
+                ("g", Tier::Quick) => 2,
+                ("g", Tier::Thorough) => 8,
                 ("d", Tier::Quick) => 2,
                 ("d", Tier::Thorough) => 8,
                 _ => 8,
@@ -520,7 +546,7 @@ pub fn run(tier: Tier) -> i32 {
     }
     // (e) very long inputs on small stacks, against a dev-profile build of the library (no tail-call
     // elimination, no inlining): recursion whose depth grows with the input overflows there
-    let (deep_n, deep_kib) = tier.pick((12_000usize, 128usize), (60_000, 128));
+    let (deep_n, deep_kib) = tier.pick((12_000usize, 128usize), (30_000, 128));
     match deep_recursion_probe(deep_n, deep_kib) {
         Ok((lines, None)) => {
             acc.states += lines as u64;
@@ -530,7 +556,7 @@ pub fn run(tier: Tier) -> i32 {
             ctx.report(&mut acc, Violation {
                 lang: "*".into(),
                 entry: "deep_recursion_probe".into(),
-                input: format!("probes/deeprec: {deep_n} tokens (ordinary word, unit, thousand, conjunction; joined by space, hyphen, comma) through text2digits, replace_numbers_in_text, find_numbers, find_numbers_iter on threads with {deep_kib} KiB of stack, library built in the dev profile"),
+                input: format!("probes/deeprec (library built in the dev profile: debug assertions, overflow checks, no tail calls): {deep_n} tokens (ordinary word, unit, thousand, conjunction; joined by space, hyphen, comma) on threads with {deep_kib} KiB of stack, then every stream of <= 3 of 11 class words (<= 4 of 7) x 7 thresholds; through text2digits, replace_numbers_in_text, find_numbers, find_numbers_iter"),
                 threshold: None,
                 clause: "every entry point terminates and returns on very long input".into(),
                 expected: "all calls return".into(),
@@ -545,9 +571,9 @@ pub fn run(tier: Tier) -> i32 {
     acc.nontrivial = acc.states;
     let cov = json!({
         "exhaustive": true,
-        "rule": "(a) every string of length <= k over 21 characters; (b) every sequence of <= k atoms over the full vocabulary plus {\"\",-,--,-a,a-} joined by space and by hyphen; (c) a fixed smoke list of long inputs (NOT an exhaustive space); (d) every token stream of <= k tokens over class words and compound fragments, each plain, '~' or '!' hinted, through find_numbers, find_numbers_iter and replace_numbers_in_stream; each x 7 languages x {text2digits, replace_numbers_in_text, find_numbers, find_numbers_iter drained, replace_numbers_in_stream} x thresholds; get_interpreter_for on the strings of (a)",
+        "rule": "(a) every string of length <= k over 21 characters; (b) every sequence of <= k atoms over the full vocabulary plus {\"\",-,--,-a,a-} joined by space and by hyphen; (c) a fixed smoke list of long inputs (NOT an exhaustive space); (g) every sequence of <= 4 (thorough 5) words over nine, tens, hundred, one and the scale words; (d) every token stream of <= k tokens over class words and compound fragments, each plain, '~' or '!' hinted, through find_numbers, find_numbers_iter and replace_numbers_in_stream; each x 7 languages x {text2digits, replace_numbers_in_text, find_numbers, find_numbers_iter drained, replace_numbers_in_stream} x thresholds; get_interpreter_for on the strings of (a)",
         "characters": CHARS.iter().map(|c| format!("U+{:04X}", *c as u32)).collect::<Vec<_>>(),
-        "bounds": {"a_max_len": tier.pick(4, 6), "a_len6_thresholds": "0, NaN only", "b_max_atoms": tier.pick(2, 3), "c_repetitions": tier.pick(3000, 20_000), "e_tokens": deep_n, "e_stack_kib": deep_kib},
+        "bounds": {"a_max_len": tier.pick(4, 6), "a_len6_thresholds": "0, NaN only", "b_max_atoms": tier.pick(2, 3), "c_repetitions": tier.pick(3000, 20_000), "e_tokens": deep_n, "e_stack_kib": deep_kib, "e_short_streams": "dev-profile build: every stream of <= 3 of 11 class words (<= 4 of the first 7) per language x thresholds {0, 10, 50, 1000, inf, NaN, -1} x 4 entry points"},
         "thresholds": THRS.iter().map(|t| thr_name(*t)).collect::<Vec<_>>(),
         "child_processes": jobs.len(),
     });
